@@ -15,7 +15,8 @@ from dsim.base import CheckBase, draw_sched_config
 from dsim.history import History, result_summary, RESULT_LISTS
 
 BAD_CALLS = ('get_twice', 'wrong_type', 'unknown_handle', 'mk_existing_ctx', 'add_existing_ctx_state',
-             'add_existing_descr', 'remove_unknown_descr', 'get_state_without_descr', 'write_entity_twice', 'add_existing_single_state')
+             'add_existing_descr', 'remove_unknown_descr', 'get_state_without_descr', 'write_entity_twice', 'add_existing_single_state',
+             'add_ctx_state_foreign_handle', 'entity_ctx_state_foreign_handle')
 
 
 class PreCommitBoom(Exception):
@@ -45,7 +46,7 @@ class C03(CheckBase):
     assumptions = ['crash points are the boundaries between API calls of the generated transaction body',
                    'post-commit state of a failed commit is judged against the transaction\'s own item list']
     expected_probes = ['crash_points', 'precommit_raise', 'bad_calls', 'iso_tx', 'iso_entity', 'iso_result',
-                       'iso_periodic', 'commits']
+                       'iso_periodic', 'commits', 'iso_entity_updated']
     exhaustive = None
 
     def budget(self, tier):
@@ -137,6 +138,7 @@ class C03(CheckBase):
                                           f'state {key} stored for periodic report of MdibVersion {ps.mdib_version} '
                                           f'no longer shows that version\'s values: {d[:4]}')
 
+        kept = []  # entities the application keeps across transactions and refreshes with Entity.update()
         for op in plan['ops']:
             s.reseed('op', op['id'])
             prng = random.Random(op['probe_seed'])
@@ -174,6 +176,7 @@ class C03(CheckBase):
             # (c) API-rejected call appended to the body
             if self._bad_call(ctx, mdib, op, pre, nrep, reports, expect_unchanged) == 'committed':
                 ctx.probe('bad_call_accepted')
+                ctx.probe('bad_call_accepted:' + str(op.get('bad')))
                 check_published('after-commit')
                 continue
             # (d) isolation probe on transaction getter objects: write through them, then abort
@@ -211,18 +214,41 @@ class C03(CheckBase):
             check_published('after-commit')
             check_periodic('after-commit')
             post = snap_all(mdib)
-            # (f) entity getter isolation
+            # (f) entity getter isolation: fresh entities, and entities the application kept and refreshes with update()
             handles = sorted(post['descriptors'])
-            for _ in range(2):
-                h = prng.choice(handles)
+            cands = []
+            fresh_states = {}
+            for e_old in prng.sample(kept, min(4, len(kept))):
+                had = set(e_old.states) if e_old.is_multi_state else None
+                try:
+                    e_old.update()
+                    cands.append((e_old, 'entity-update'))
+                    if had is not None:
+                        fresh_states[id(e_old)] = sorted(set(e_old.states) - had)  # states the entity learned just now
+                except (KeyError, ValueError):
+                    kept.remove(e_old)  # the descriptor (or its state) was deleted meanwhile
+            # context entities first: multi-state entities have the richer update() logic
+            ctx_handles = sorted({st.DescriptorHandle for st in mdib.context_states.objects} & set(handles))
+            for i_ in range(2):
+                h = prng.choice(ctx_handles if (ctx_handles and i_ == 0 and prng.random() < 0.5) else handles)
                 try:
                     ent = mdib.entities.by_handle(h)
                 except KeyError:
                     continue  # descriptor without state: the entity getter cannot build an entity for it
                 if ent is None:
                     continue
+                cands.append((ent, 'entity-getter'))
+                if len(kept) < 10 and prng.random() < 0.8:
+                    try:
+                        kept.append(mdib.entities.by_handle(h))  # a second, untouched entity for a later update()
+                    except KeyError:
+                        pass
+            for ent, how in cands:
                 targets = [ent.descriptor] + (list(ent.states.values()) if ent.is_multi_state else [ent.state])
                 o = prng.choice(targets)
+                if fresh_states.get(id(ent)) and prng.random() < 0.8:
+                    o = ent.states[prng.choice(fresh_states[id(ent)])]
+                    ctx.probe('iso_entity_updated_new_state')
                 mut = V.gen_mutation(o, prng, prefer_nested=0.9)
                 if mut is None:
                     continue
@@ -230,12 +256,15 @@ class C03(CheckBase):
                     V.set_path(o, mut[0], V.dec(mut[1]))
                 except Exception:  # noqa: BLE001
                     continue
-                ctx.probe('iso_entity')
+                ctx.probe('iso_entity' if how == 'entity-getter' else 'iso_entity_updated')
                 now = snap_all(mdib)
                 if now != post:
                     d = canon.diff(post, now)
-                    ctx.violation('C03.private', f'entity-getter:{".".join(str(p) for p in mut[0] if not isinstance(p, int))}',
-                                  f'writing {mut[0]} of an entity obtained from mdib.entities changed the MDIB: {d[:4]}')
+                    ctx.violation('C03.private', f'{how}:{".".join(str(p) for p in mut[0] if not isinstance(p, int))}',
+                                  f'writing {mut[0]} of an entity obtained from mdib.entities '
+                                  f'{"and refreshed with update() " if how != "entity-getter" else ""}changed the MDIB: {d[:4]}')
+                if how != 'entity-getter' and ent in kept:
+                    kept.remove(ent)  # it now differs from the MDIB on purpose
             # (g) write through the latest published result: the MDIB, earlier results and the periodic store stay
             if published and prng.random() < 0.7:
                 tr, _summ = published[-1]
@@ -302,6 +331,22 @@ class C03(CheckBase):
                     st = mdib.data_model.mk_state_container(d)
                     st.Handle = ex[0].Handle
                     mgr.add_state(st)
+            elif variant in ('add_ctx_state_foreign_handle', 'entity_ctx_state_foreign_handle') and k == 'context':
+                # a new context state that reuses the handle of a context state of ANOTHER descriptor
+                ex = sorted(mdib.context_states.objects, key=lambda st: st.Handle)
+                others = [d for d in sorted(mdib.descriptions.objects, key=lambda d: d.Handle) if d.is_context_descriptor
+                          and ex and d.Handle != ex[0].DescriptorHandle and d.Handle not in
+                          {it.new.DescriptorHandle for it in mgr.context_state_updates.values() if it.new is not None}]
+                if ex and others:
+                    fired.append(2)
+                    if variant == 'add_ctx_state_foreign_handle' or op.get('iface') != 'entity':
+                        st = mdib.data_model.mk_state_container(others[0])
+                        st.Handle = ex[0].Handle
+                        mgr.add_state(st)
+                    else:
+                        ent = mdib.entities.by_handle(others[0].Handle)
+                        ent.new_state(ex[0].Handle)
+                        mgr.write_entity(ent, [ex[0].Handle])
             elif variant == 'add_existing_descr' and k == 'descr':
                 d = sorted(mdib.descriptions.objects, key=lambda x: x.Handle)[0]
                 fired.append(1)
